@@ -27,7 +27,9 @@ Env.to_file opens the destination path itself in 'wb' mode (truncation
 first) and does not rename a side file over it: an interrupted write leaves
 an unreadable file, i.e. not-done, never the stale entry of an earlier run
 (the property quantifies over write / crash-during-write / read sequences).
-Not decided: pickle round-trip equality of what was written.
+READ-PATH - the path read_env hands to Env.from_file is composed from root,
+task name and file name, never obtained by glob / fnmatch / regular-expression
+matching on them. Not decided: pickle round-trip equality of what was written.
 '''
 ASSUMPTIONS = [
     'the failure classes of unpickling a truncated/damaged stream are the '
@@ -41,6 +43,7 @@ def check(ctx):
     ctx.run(persist.check_merge_done)
     ctx.run(persist.check_write_all)
     ctx.run(persist.check_write_invalidates)
+    ctx.run(persist.check_read_path)
     func = ctx.program.func(
         'valjean.cambronne.commands.run:RunCommand.execute')
     src = {}
@@ -93,6 +96,73 @@ def variants(program):
         return False
     out.append(Variant('handler-forgets-UnpicklingError', 'mutant',
                        edit_module(program, envmod, narrow2), {'EXC-COVER'}))
+
+    common = 'valjean.cambronne.common'
+
+    def read_by_glob(tree):
+        # seed C14-r2-2: the files are found with a glob pattern
+        fun = find_func(tree, 'read_env')
+        for node in ast.walk(fun):
+            if isinstance(node, ast.For) and any(
+                    'from_file' in txt(s_) for s_ in node.body):
+                pos = fun.body.index(node)
+                fun.body.insert(pos, parse_stmts(
+                    'import glob as _glob\n'
+                    'task_files = {Path(f).parent.name: f for f in '
+                    '_glob.glob(str(Path(root) / "*" / filename))}')[1])
+                fun.body.insert(pos, parse_stmts('import glob as _glob')[0])
+                for idx, stmt in enumerate(node.body):
+                    if isinstance(stmt, ast.Assign) and txt(
+                            stmt.targets[0]) == 'task_file':
+                        node.body[idx:idx + 1] = parse_stmts(
+                            'task_file = task_files.get(task_name)\n'
+                            'if task_file is None:\n'
+                            '    continue')
+                        return True
+        return False
+    out.append(Variant('seed-environment-files-found-by-glob', 'mutant',
+                       edit_module(program, common, read_by_glob),
+                       {'READ-PATH'}, note='root "output[v2]" or a task '
+                       '".prepare": intact DONE entries are not read'))
+
+    def read_by_listing(tree):
+        fun = find_func(tree, 'read_env')
+        for node in ast.walk(fun):
+            if isinstance(node, ast.For) and any(
+                    'from_file' in txt(s_) for s_ in node.body):
+                for idx, stmt in enumerate(node.body):
+                    if isinstance(stmt, ast.Assign) and txt(
+                            stmt.targets[0]) == 'task_file':
+                        node.body[idx:idx + 1] = parse_stmts(
+                            'task_dir = Path(root) / task_name\n'
+                            'task_file = str(task_dir / filename)')
+                        return True
+        return False
+    out.append(Variant('twin-path-composed-in-two-steps', 'twin',
+                       edit_module(program, common, read_by_listing)))
+
+    def write_skips_on_clock(tree):
+        # seed C14-r2-3: entries that "did not run since" are not rewritten
+        fun = find_func(tree, 'write_env')
+        fun.args.kwonlyargs.append(ast.arg(arg='since'))
+        fun.args.kw_defaults.append(ast.Constant(value=None))
+        for node in ast.walk(fun):
+            if isinstance(node, ast.For) and any(
+                    'to_file' in txt(s_) for s_ in node.body):
+                for idx, stmt in enumerate(node.body):
+                    if isinstance(stmt, ast.Assign) and txt(
+                            stmt.targets[0]) == 'task_file':
+                        node.body.insert(idx + 1, parse_stmts(
+                            'if since is not None and subenv.get('
+                            '"end_clock", since) < since and Path('
+                            'task_file).is_file():\n'
+                            '    continue')[0])
+                        return True
+        return False
+    out.append(Variant('seed-write-skipped-for-tasks-that-did-not-run-again',
+                       'mutant', edit_module(program, common,
+                                             write_skips_on_clock),
+                       {'WRITE-ALL'}))
 
     def reraise(tree):
         fun = find_func(tree, 'Env.from_file')
